@@ -59,6 +59,8 @@ PROPS = {
         "lean": ["PasfmtModel.Props.C05"],
         "streams": [
             {"stream": "fmt", "families": "marked", "quick": 6000, "thorough": 40000, "binding": ["cl", "wp", "sx", "out", "*"], "args": {"oracles": "c05"}},
+            # lines and levels come from the parser: the exact Lean model of its control flow against the real parser
+            {"stream": "pfull", "name": "parser", "families": "marked,grammar,layout,seeds_sample", "quick": 4000, "thorough": 40000, "binding": ["pl", "*"]},
         ],
         "oracle_prefixes": ["c05", "glue"],
         "abnormal_binding": False,
@@ -73,6 +75,8 @@ PROPS = {
         "lean": ["PasfmtModel.Props.C06"],
         "streams": [
             {"stream": "fmt", "families": "relayout", "quick": 2500, "thorough": 40000, "binding": ["pre", "out", "*"], "args": {"oracles": "c06"}},
+            # ParserKindsOnly: the Lean model of the parser reads token kinds (and line-break flags, used inside asm blocks only) and nothing else
+            {"stream": "pfull", "name": "parser", "families": "layout,grammar,seeds_sample,regions", "quick": 3000, "thorough": 30000, "binding": ["pk", "pl", "*"]},
             {"stream": "fmt", "name": "pairs", "families": "pairs", "quick": 30000, "thorough": 200000, "binding": ["pre", "*"], "args": {}},
             {"stream": "fmt", "name": "pairs_enum", "families": "pairs_enum", "quick": 4000, "thorough": 831875, "multi_seed": False,
              "binding": ["pre", "*"], "args": {}},
@@ -110,6 +114,8 @@ PROPS = {
             {"stream": "fmt", "families": "soup,bytes,mutate,directives,dirsoup,seeds_sample,layout,deepnest", "quick": 4200, "thorough": 80000,
              "binding": ["*"], "args": {"oracles": "c15,c04", "timeout_ms": 20000}},
             {"stream": "parse", "families": "soup,bytes,mutate,directives,dirsoup,layout", "quick": 3000, "thorough": 40000, "name": "counters"},
+            # the total, fuel-bounded Lean model of the whole parser answers (never `model-none`: no panic site reached, fuel 200*(n+10) not exhausted) and agrees
+            {"stream": "pfull", "name": "parser", "families": "soup,bytes,mutate,dirsoup,deepnest", "quick": 4000, "thorough": 40000, "binding": ["pk", "pl", "*"]},
             {"stream": "fmt", "name": "enum", "families": "soup_enum", "quick": 3000, "thorough": 1010100, "multi_seed": False,
              "binding": ["*"], "args": {"timeout_ms": 20000}},
         ],
@@ -129,6 +135,8 @@ PROPS = {
         "lean": ["PasfmtModel.Props.C14"],
         "streams": [
             {"stream": "parse", "families": ALL_FAMILIES + ",directives", "quick": 4000, "thorough": 60000},
+            # the whole parser (control flow included) against its exact Lean model: final token kinds and lines
+            {"stream": "pfull", "name": "parser", "families": ALL_FAMILIES + ",marked,regions,condinline,pairs", "quick": 5000, "thorough": 60000, "binding": ["pk", "pl", "*"]},
             # the three post-parse consolidators (exact models): kinds and lines after them, computed from the parser's own output
             {"stream": "fmt", "name": "consolidators", "families": ALL_FAMILIES + ",directives,condinline,marked,regions", "quick": 3000, "thorough": 40000,
              "binding": ["ck", "cl"], "args": {"oracles": "c14"}},
